@@ -109,6 +109,7 @@ def run(tier, seed):
     col.merge(stepcheck.explore(lit2, MONS, 0, 0, seed=seed))
     col.merge(stepcheck.explore(stepcheck.edited_items(), MONS, 0, 0, seed=seed))  # runs after an earlier run and an in-place model edit
     col.merge(stepcheck.explore(F.scale_items(("TSLACK", "LPT", "SPT")), MONS, 0, 0, seed=seed))  # medium-sized models (10-14 tasks / workers / machines), long absence lists
+    col.merge(stepcheck.explore(F.extra_items(("TSLACK", "LPT", "SPT"), calendars=True), MONS, 0, 0, seed=seed))  # other ways of building the object graph; continuations under a revised calendar
     meta = {
         "level": "model_checking",
         "rule": "(a) every 2x2 worker-task skill grid over {missing,0,1e-11,1}; (b) every team-targeting matrix of 2 teams x 2 tasks x solo flags; (c) all pairs of fixed "
